@@ -184,6 +184,37 @@ impl Group for History {
         if out.contains("DIFFERS-FROM-UNCACHED") || out == "panic" {
             return Some((format!("uncached:{line}"), out.to_owned()));
         }
+        // statement-level (C04): responses that are not cacheable are recomputed on every request — their
+        // invocation counters never repeat; POST never repeats either.
+        let p: Vec<&str> = line.split(' ').collect();
+        let permissive = p[2] == "1";
+        let outs = parse_list(out)?;
+        let mut seen: std::collections::HashMap<usize, Vec<String>> = Default::default();
+        let mut oi = 0;
+        for ev in parse_list(p[3])? {
+            let f: Vec<&str> = ev.split(':').collect();
+            if f[0] != "R" {
+                continue;
+            }
+            let o = outs.get(oi)?.clone();
+            oi += 1;
+            let pi: usize = f[3].parse().ok()?;
+            let t = TABLE[pi];
+            let uncacheable = t.1 == "none" || (t.2 == 403 && !permissive) || t.5 == "none" || t.3 >= 4 * 1024 * 1024 || t.6 || f[2] == "P";
+            if o == "304" {
+                if uncacheable && f[2] != "P" && t.1 != "full" {
+                    return Some((format!("stored:{line}"), format!("304 for the uncacheable {}", t.0)));
+                }
+                continue;
+            }
+            let e = seen.entry(pi).or_default();
+            if (uncacheable || p[1] == "0") && e.contains(&o) {
+                return Some((format!("stored:{line}"), format!("{} is not cacheable (or the cache is off) but the reply {o} was served twice", t.0)));
+            }
+            if f[2] != "P" || true {
+                e.push(o);
+            }
+        }
         None
     }
     fn nontrivial(&self, _l: &str, o: &str) -> bool {
